@@ -4,6 +4,7 @@ import (
 	"context"
 	"errors"
 	"fmt"
+	"io"
 	"net/http"
 	"net/http/httptest"
 	"reflect"
@@ -104,6 +105,8 @@ func parseActs(tok string) (acts []dact, ph bool, ok bool) {
 		switch f[0] {
 		case "em", "ss", "wh", "rr", "rq":
 			d.n = intArg(1)
+		case "sh":
+			d.n = dxNatArg(arg(1), &bad)
 		case "nx", "ab", "dp", "kc":
 		case "pn":
 			d.pv = arg(1)
@@ -138,6 +141,9 @@ func panicValue(pv string) (v interface{}, rt string, ok bool) {
 	case strings.HasPrefix(pv, "i."):
 		n, err := strconv.Atoi(pv[2:])
 		return n, "", err == nil
+	case strings.HasPrefix(pv, "h."), strings.HasPrefix(pv, "w."):
+		e, o := dxErrValue(pv)
+		return e, "", o
 	}
 	return nil, "", false
 }
@@ -175,6 +181,117 @@ func encAny(v interface{}) string {
 		return "L" + strings.Join(out, "/")
 	}
 	return "P" + encPanic(v)
+}
+
+/**************** dx: panic values that are error sentinels; the SetHandlers action ****************/
+
+// Error values a handler can panic with, beside errors.New texts: the sentinels of net/http, io and context that
+// real handlers raise (httputil.ReverseProxy and http.TimeoutHandler panic with http.ErrAbortHandler), bare
+// (`h.<name>.<hex of Error()>`) or wrapped with %w (`w.<name>.<hex of Error()>`).  The model is value-agnostic:
+// for it such a value is an error with that text (Drv/Dispatch.lean), so both sides print it as `e.<hex>`.
+var dxSentinels = map[string]error{
+	"abort":    http.ErrAbortHandler,
+	"bodyna":   http.ErrBodyNotAllowed,
+	"hijacked": http.ErrHijacked,
+	"closed":   http.ErrServerClosed,
+	"eof":      io.EOF,
+	"ueof":     io.ErrUnexpectedEOF,
+	"canceled": context.Canceled,
+	"deadline": context.DeadlineExceeded,
+}
+
+var dxSentinelNames = []string{"abort", "abort", "abort", "bodyna", "hijacked", "closed", "eof", "ueof", "canceled", "deadline"}
+
+func dxErrValue(pv string) (error, bool) {
+	p := strings.Split(pv, ".")
+	if len(p) != 3 {
+		return nil, false
+	}
+	e := dxSentinels[p[1]]
+	if e == nil {
+		return nil, false
+	}
+	if p[0] == "w" {
+		e = fmt.Errorf("upstream copy: %w", e)
+	}
+	if msg, ok := unhx(p[2]); !ok || msg != e.Error() {
+		return nil, false
+	}
+	return e, true
+}
+
+// dxPV renders the wire form of a sentinel value.
+func dxPV(kind, name string) string {
+	e := dxSentinels[name]
+	if kind == "w" {
+		e = fmt.Errorf("upstream copy: %w", e)
+	}
+	return kind + "." + name + "." + hx(e.Error())
+}
+
+// dxCanonPV: what the trace shows for a planted panic value (the new forms as the error they are).
+func dxCanonPV(pv string, v interface{}) string {
+	if strings.HasPrefix(pv, "h.") || strings.HasPrefix(pv, "w.") {
+		return encPanic(v)
+	}
+	return pv
+}
+
+func dxNatArg(s string, bad *bool) int {
+	if s == "" || len(s) > 6 {
+		*bad = true
+		return 0
+	}
+	n := 0
+	for _, ch := range s {
+		if ch < '0' || ch > '9' {
+			*bad = true
+			return 0
+		}
+		n = n*10 + int(ch-'0')
+	}
+	return n
+}
+
+func dxIsSH(tok string) bool {
+	p := strings.Split(tok, ":")
+	if len(p) != 2 || p[0] != "sh" {
+		return false
+	}
+	bad := false
+	dxNatArg(p[1], &bad)
+	return !bad
+}
+
+// dxHasSH: some handler token contains a well-formed `sh:<id>` action.
+func dxHasSH(toks []string) bool {
+	for _, t := range toks {
+		for _, a := range strings.Split(t, ",") {
+			if dxIsSH(a) {
+				return true
+			}
+		}
+	}
+	return false
+}
+
+func (cs *dcase) dxKeepRoute(id int, rr *rux.Route) {
+	if cs.dxRR == nil {
+		cs.dxRR = map[int]*rux.Route{}
+	}
+	cs.dxRR[id] = rr
+}
+
+// dxSetHandlers is the action `sh:<id>`: c.SetHandlers(route.Handlers()) with the middleware chain of a registered
+// route - a slice that lives as long as the router. The context then carries the router's own slice; whatever a
+// later request does with this pooled context must not reach that slice (nothing if the route is unknown).
+func (cs *dcase) dxSetHandlers(c *rux.Context, id int) {
+	if rr := cs.dxRR[id]; rr != nil {
+		if !cs.isTwin {
+			dispStat("sethandlers_calls", 1)
+		}
+		c.SetHandlers(rr.Handlers())
+	}
 }
 
 /**************** recording writer ****************/
@@ -239,6 +356,7 @@ type dcase struct {
 	ctxLost  map[*rux.Context]bool
 	lostSeen bool
 	lastCtx  *rux.Context // a context this router handed out before (source of the contexts given to HandleContext)
+	dxRR     map[int]*rux.Route // the registered routes by id (targets of the `sh` action)
 	kept     []*dKept     // copies kept by `kc`
 }
 
@@ -397,7 +515,7 @@ func (cs *dcase) runActs(c *rux.Context, acts []dact, pos string) {
 			c.Next()
 		case "pn":
 			v, rt, _ := panicValue(a.pv)
-			cs.tr("P" + pos + "." + a.pv)
+			cs.tr("P" + pos + "." + dxCanonPV(a.pv, v))
 			switch rt {
 			case "rn":
 				var m map[string]int
@@ -408,6 +526,8 @@ func (cs *dcase) runActs(c *rux.Context, acts []dact, pos string) {
 			default:
 				panic(v)
 			}
+		case "sh":
+			cs.dxSetHandlers(c, a.n)
 		case "st":
 			c.Set(a.a, a.b)
 		case "ae":
@@ -525,6 +645,9 @@ func routePattern(rt *droute) string {
 func (cs *dcase) config(f []string) string {
 	globalsBase := func() int { return 0 }
 	afterGlobals := func() int { return cs.nGlobals }
+	if f[0] != "route" && dxHasSH(f[1:]) {
+		return "bad-op" // SetHandlers actions live in route handlers only (see Drv/Dispatch.lean)
+	}
 	switch f[0] {
 	case "new":
 		if len(f) != 3 {
@@ -575,13 +698,15 @@ func (cs *dcase) config(f []string) string {
 			return "bad-op"
 		}
 		main := hs[len(hs)-1]
+		var rr *rux.Route
 		if ng > 0 {
 			cs.router.Group("/g", func() {
-				cs.router.GET(routePattern(rt), main, hs[ng:len(hs)-1]...)
+				rr = cs.router.GET(routePattern(rt), main, hs[ng:len(hs)-1]...)
 			}, hs[:ng]...)
 		} else {
-			cs.router.GET(routePattern(rt), main, hs[:len(hs)-1]...)
+			rr = cs.router.GET(routePattern(rt), main, hs[:len(hs)-1]...)
 		}
+		cs.dxKeepRoute(id, rr)
 		cs.routes[id] = rt
 		return "ok"
 	case "notfound", "notallowed":
@@ -1126,6 +1251,37 @@ func viaHandleContext(r *Rand, ops []string, num, den int) (n int) {
 	return
 }
 
+// dxSentinelStream (drawn after everything else of the case): in a third of the cases every planted panic value is
+// replaced, with probability 1/2, by an error sentinel of net/http / io / context, bare or wrapped with %w.
+func dxSentinelStream(r *Rand, ops []string) bool {
+	if !r.Chance(1, 3) {
+		return false
+	}
+	any := false
+	for i, op := range ops {
+		f := strings.Fields(op)
+		if len(f) == 0 || strings.HasPrefix(f[0], "serve") {
+			continue
+		}
+		for j, t := range f {
+			acts := strings.Split(t, ",")
+			for k, a := range acts {
+				if strings.HasPrefix(a, "pn:") && r.Chance(1, 2) {
+					kind := "h"
+					if r.Chance(1, 4) {
+						kind = "w"
+					}
+					acts[k] = "pn:" + dxPV(kind, r.Pick(dxSentinelNames))
+					any = true
+				}
+			}
+			f[j] = strings.Join(acts, ",")
+		}
+		ops[i] = strings.Join(f, " ")
+	}
+	return any
+}
+
 /**************** engine panic (C09) ****************/
 
 type panicEngine struct{}
@@ -1180,6 +1336,12 @@ func (panicEngine) Corpus() []Case {
 		// a 404 and a 405, then without hook (the value reaches the caller of HandleContext), then ServeHTTP again
 		{Ops: []string{"new 0 1", "route 1 s 0 " + boom, "route 2 d1 0 em:1,ss:204", "onpanic ss:500", "serve r 2 7661 -", "serveh r 1 - -", "serveh r 2 7661 -", "serveh nf 0", "serveh na 1 - -",
 			"nopanic", "serveh r 1 - -", "serveh r 2 7661 -", "serve r 2 7661 -"}, Tag: "corpus-hc"},
+		// panic values that are error sentinels (what httputil.ReverseProxy / http.TimeoutHandler raise), bare and
+		// wrapped: contained by the hook like every other value; without hook the very value reaches the caller
+		{Ops: []string{"new 0 0", "use em:1,nx,em:2", "route 1 s 0 pn:" + dxPV("h", "abort"), "route 2 s 0 em:3,pn:" + dxPV("w", "abort"), "route 3 d1 0 pn:" + dxPV("h", "bodyna"),
+			"notfound pn:" + dxPV("h", "ueof"), "onpanic gt:" + keyRec + ",ss:502,wr:" + hx("bad gateway"), "serve r 1 - -", "serve r 2 - -", "serve r 3 7661 -", "serve nf 0", "serveh r 1 - -",
+			"nopanic", "serve r 1 - -", "serve r 2 - -", "onpanic ss:500", "serve r 1 - -"}, Tag: "corpus-sentinel"},
+		{Ops: []string{"new 0 0", "use PH", "route 1 s 0 pn:" + dxPV("h", "abort") + " em:1", "onerror pn:" + dxPV("h", "deadline"), "route 2 s 0 ae:6531", "onpanic -", "serve r 1 - -", "serve r 2 - -", "serve r 1 - -"}, Tag: "corpus-sentinel"},
 	}
 }
 
@@ -1260,7 +1422,67 @@ func (panicEngine) Gen(r *Rand, tier string) Case {
 		tag += "+PH"
 	}
 	viaHandleContext(r, ops, 1, 4)
+	if dxSentinelStream(r, ops) {
+		tag += "+sentinel"
+	}
 	return Case{Ops: ops, Tag: "hook=" + tag}
+}
+
+// dxSetHandlersStream (drawn after everything else of the case; one case in six): a handler of route A hands the
+// middleware slice of route B (the route with the longest chain, at least two middleware) to its context with
+// c.SetHandlers(B.Handlers()) - mostly as the last action of A's main handler, where the running request does not
+// notice. The history is extended by requests that get the pooled context back (a short chain: a 404, a 405,
+// a static route) and by requests to B, whose chain must be what it was.
+func dxSetHandlersStream(g *dgen, c *dconf, serves *[]string) bool {
+	r := g.r
+	if !r.Chance(1, 6) {
+		return false
+	}
+	if len(c.globals) > 1 {
+		c.globals = c.globals[:1] // short chains fit into the slice that was handed in
+	}
+	bi := 0
+	for i := range c.routes {
+		if len(c.routes[i].hs) > len(c.routes[bi].hs) {
+			bi = i
+		}
+	}
+	b := &c.routes[bi]
+	for len(b.hs) < 3 { // at least two middleware (inserted behind the group middleware)
+		mw := append([]string{"em:" + strconv.Itoa(r.Intn(10))}, "nx")
+		hs := append([][]string{}, b.hs[:b.ng]...)
+		hs = append(hs, mw)
+		b.hs = append(hs, b.hs[b.ng:]...)
+	}
+	ai := r.Intn(len(c.routes))
+	a := &c.routes[ai]
+	h := &a.hs[len(a.hs)-1]
+	tok := "sh:" + strconv.Itoa(b.id)
+	if r.Chance(3, 4) {
+		*h = append(append([]string{}, *h...), tok)
+	} else {
+		h = &a.hs[r.Intn(len(a.hs))]
+		lo := 0
+		if len(*h) > 0 && (*h)[0] == "dp" {
+			lo = 1
+		}
+		*h = insertAt(*h, r.Range(lo, len(*h)), tok)
+	}
+	for i, n := 0, r.Range(1, 3); i < n; i++ {
+		*serves = append(*serves, g.serveOp(c, "r", a))
+		for j, m := 0, r.Range(1, 2); j < m; j++ {
+			switch r.Intn(4) {
+			case 0:
+				*serves = append(*serves, g.serveOp(c, "nf", nil))
+			case 1:
+				*serves = append(*serves, g.serveOp(c, "na", &c.routes[r.Intn(len(c.routes))]))
+			default:
+				*serves = append(*serves, g.serveOp(c, "r", &c.routes[r.Intn(len(c.routes))]))
+			}
+		}
+		*serves = append(*serves, g.serveOp(c, "r", b))
+	}
+	return true
 }
 
 /**************** engine ctx (C10) ****************/
@@ -1297,6 +1519,12 @@ func (ctxEngine) Corpus() []Case {
 		{Ops: []string{"new 0 0", "route 1 d1 0 dp,st:" + hx("user") + ":" + hx("alice") + ",kc,wr:" + hx("accepted"), "route 2 s 0 dp,st:" + hx("user") + ":" + hx("bob") + ",wr:" + hx("pong"),
 			"notfound dp", "serve r 1 7661 -", "serve r 2 - -", "serve nf 0", "serveh r 2 - -", "serve r 1 7662 -", "serve r 2 - -"}, Tag: "corpus-kept-copy"},
 		{Ops: []string{"new 1 1", "use dp,kc,nx,st:6b:76,kc", "route 1 d2 0 sp:70:6576696c,kc", "route 2 s 0 pn:s.78", "onpanic kc,ss:500", "serve r 1 7661 7662", "serve r 2 - -", "serve r 1 7661 7662", "serve na 1 7661 7662", "serve r 2 - -"}, Tag: "corpus-kept-copy"},
+		// a handler hands the middleware slice of ANOTHER route to its context (c.SetHandlers(route.Handlers()));
+		// the requests that get this pooled context afterwards must leave that slice alone: route 2 keeps its chain
+		{Ops: []string{"new 0 0", "route 1 s 0 dp,wr:" + hx("fwd") + ",sh:2", "route 2 s 0 em:1,nx em:2,nx em:3,nx wr:" + hx("B"), "route 3 s 0 dp,wr:" + hx("plain"),
+			"serve r 1 - -", "serve r 3 - -", "serve r 2 - -", "serve r 1 - -", "serve nf 0", "serve r 2 - -"}, Tag: "corpus-sethandlers"},
+		// the same through HandleContext, with a group route as the target, its own slice as the source, a 405 in between
+		{Ops: []string{"new 1 1", "route 1 d1 2 em:1,nx em:2,nx em:3,nx dp,sh:1", "route 2 s 0 dp,sh:1", "serve r 1 7661 -", "serve na 2 - -", "serve r 1 7661 -", "serve r 2 - -", "serveh r 2 - -", "serve nf 1", "serveh r 1 7662 -"}, Tag: "corpus-sethandlers"},
 	}
 }
 
@@ -1373,6 +1601,9 @@ func (ctxEngine) Gen(r *Rand, tier string) Case {
 			*h = insertAt(*h, r.Range(lo, len(*h)), "kc")
 		}
 		tag += " copy"
+	}
+	if dxSetHandlersStream(g, c, &serves) {
+		tag += " sethandlers"
 	}
 	return Case{Ops: append(c.ops(), serves...), Tag: tag}
 }
